@@ -449,7 +449,7 @@ func checkC05(c *Ctx) {
 	c.Explanation = `Static lock-discipline and shared-state rules on the two built-in templates, decided on every path of the abstract evaluation (engine T; all template-data flag combinations x method shapes up to the tier bound, see coverage.template_paths). Each path's output skeleton is parsed and type-checked, then:
 R05.1 (matryer) every read/write of a field of the mock struct other than the Func fields and the locks happens while the lock field deriving from the same .Methods element is held (write lock for writes), every acquire is released on every exit, no return/panic/branch escapes a held lock, locks are not taken in conflicting orders;
 R05.2 (matryer) the mock struct has exactly one sync.RWMutex/Mutex field per method of the interface;
-R05.4 (testify) the template declares no package-level variables, the mock struct holds nothing but the embedded mock.Mock, the expecter nothing but a *mock.Mock, call structs nothing but *mock.Call, and no generated method stores through its receiver or refers to package-level variables;
+R05.4 (testify) no function literal in generated code writes a variable declared outside it (testify runs the Run closure outside its mutex), Called(xs...) never spreads a parameter (the recorded call would share the caller's array), the template declares no package-level variables, the mock struct holds nothing but the embedded mock.Mock, the expecter nothing but a *mock.Mock, call structs nothing but *mock.Call, and no generated method stores through its receiver or refers to package-level variables;
 R05.6 (matryer) the call log is only ever assigned append(itself, ...) or nil, never re-sliced or stored into, so a snapshot handed out by the Calls accessor is never overwritten by a later call;
 R05.5 (matryer) no user-supplied Func field and no other mock method is called while a lock is held (sync locks are not re-entrant).`
 	c.NotDecided = "the interleavings themselves, the Go memory model and sync/testify internals (assumed), scheduling; shapes beyond the tier bound."
@@ -573,8 +573,73 @@ func testifyNoSharedState(c *Ctx, p *TPath) {
 			if x.Recv != nil && len(x.Recv.List) == 1 && len(x.Recv.List[0].Names) == 1 {
 				recv = p.Info.Defs[x.Recv.List[0].Names[0]]
 			}
+			params := map[types.Object]bool{}
+			for _, f := range x.Type.Params.List {
+				for _, n := range f.Names {
+					params[p.Info.Defs[n]] = true
+				}
+			}
+			// closures: testify runs the function handed to Call.Run outside its mutex, once per call and
+			// possibly concurrently, so a closure may only write variables it declares itself
+			ast.Inspect(x.Body, func(n ast.Node) bool {
+				fl, isLit := n.(*ast.FuncLit)
+				if !isLit {
+					return true
+				}
+				captured := func(e ast.Expr) (string, bool) {
+					for {
+						switch y := ast.Unparen(e).(type) {
+						case *ast.SelectorExpr:
+							e = y.X
+							continue
+						case *ast.IndexExpr:
+							e = y.X
+							continue
+						case *ast.StarExpr:
+							e = y.X
+							continue
+						case *ast.Ident:
+							v, isVar := p.Info.Uses[y].(*types.Var)
+							if !isVar || v.IsField() {
+								return "", false
+							}
+							return y.Name, v.Pos() < fl.Pos() || v.Pos() > fl.End()
+						}
+						return "", false
+					}
+				}
+				ast.Inspect(fl.Body, func(m ast.Node) bool {
+					switch y := m.(type) {
+					case *ast.AssignStmt:
+						if y.Tok == token.DEFINE {
+							return true
+						}
+						for _, l := range y.Lhs {
+							if name, cap := captured(l); cap {
+								ok = false
+								fail("closure-captured-write", fmt.Sprintf("%s: a function literal assigns to %s, which is declared outside it: the variable is shared by every (possibly concurrent) invocation of the closure", normMsg(x.Name.Name), normMsg(name)), l.Pos())
+							}
+						}
+					case *ast.IncDecStmt:
+						if name, cap := captured(y.X); cap {
+							ok = false
+							fail("closure-captured-write", fmt.Sprintf("%s: a function literal modifies %s, which is declared outside it", normMsg(x.Name.Name), normMsg(name)), y.Pos())
+						}
+					}
+					return true
+				})
+				return true
+			})
 			ast.Inspect(x.Body, func(n ast.Node) bool {
 				switch e := n.(type) {
+				case *ast.CallExpr:
+					// Called(xs...) stores xs itself in the recorded call: it must be a slice built here, not the caller's
+					if sel, isSel := e.Fun.(*ast.SelectorExpr); isSel && sel.Sel.Name == "Called" && e.Ellipsis.IsValid() && len(e.Args) >= 1 {
+						if id, isID := ast.Unparen(e.Args[len(e.Args)-1]).(*ast.Ident); isID && params[p.Info.Uses[id]] {
+							ok = false
+							fail("called-spreads-parameter", fmt.Sprintf("%s spreads its parameter %s into Called(...): the recorded call then shares the caller's backing array, which the caller may rewrite (unsynchronised) after the call", normMsg(x.Name.Name), normMsg(id.Name)), e.Pos())
+						}
+					}
 				case *ast.AssignStmt:
 					for _, l := range e.Lhs {
 						if root, sels := selChain(l); root != nil && len(sels) > 0 && recv != nil && p.Info.Uses[root] == recv {
